@@ -97,6 +97,9 @@ def check_C06(tier, seed):
         res = tlc_parse(v, c, INV_LINES)
         parsecheck.replay(v, exe, res, aspects={"diag", "diagpos"}, seed=seed,
                           renderings=("varied", "fp", "file") if tier == "quick" else ("canonical", "varied", "fp", "file"), tag="C06")
+    # errors three sections deep (plain sections that exist from cfg_init on): reported through the error function like any other
+    res3 = tlc_parse(v, "C06_nested.cfg", INV_PARSE)
+    parsecheck.replay(v, exe, res3, aspects={"diag", "diagpos"}, seed=seed, renderings=("canonical",), tag="C06nest")
     # diagnostics issued by a refusing validation callback (on an option, on a section after its body) carry the position too
     res2 = tlc_parse(v, "cblines_quick.cfg", ["P_C06_Reported", "P_C06_Position"])
     parsecheck.replay(v, exe, res2, aspects={"diag", "diagpos", "cb"}, seed=seed, renderings=("canonical",), tag="C06cb")
@@ -105,7 +108,7 @@ def check_C06(tier, seed):
     res.behaviours = [b for b in res.behaviours if b["parses"][0]["exp"]["status"] == "fail"]
     parsecheck.replay(v, exe, res, aspects={"diag", "diagpos"}, seed=seed, renderings=("mix0", "mix1", "mix2"), tag="C06two")
     # scanner level: the line counter through every start condition (comments with stars, multi-line strings, continuations)
-    run_lex(v, exe, cfgs(tier, ["lex_comment_quick.cfg", "lex_lines_quick.cfg", "lex_env_quick.cfg"], ["lex_comment_thorough.cfg"]), seed, "C06")
+    run_lex(v, exe, cfgs(tier, ["lex_comment_quick.cfg", "lex_lines_quick.cfg", "lex_env_quick.cfg", "lex_dqenv_quick.cfg"], ["lex_comment_thorough.cfg"]), seed, "C06")
     res = run_tlc("MC_Inc.tla", os.path.join("mc", "inc_quick.cfg")) if os.path.exists(os.path.join(SPEC, "MC_Inc.tla")) else None
     if res is not None:
         from . import inccheck
@@ -136,6 +139,8 @@ def check_C15(tier, seed):
             # the annotation is written by print and read back by a re-parse (print -> parse -> compare -> print)
             res.behaviours = [b for b in res.behaviours if b["parses"][-1]["exp"]["status"] == "ok"]
             parsecheck.replay(v, exe, res, aspects={"roundtrip"}, seed=seed, renderings=("canonical",), tag="C15rt")
+    # scanner level: a line comment ends at the end of its line, whatever its last character is
+    run_lex(v, exe, ["lex_slashbs_quick.cfg"], seed, "C15")
     v.cov["exhaustive"] = True
     return v.finish(rule="every token sequence up to the configured length with comment tokens (empty and non-empty, "
                          "all three styles chosen by the renderer) at every token boundary, annotation support on and off")
@@ -222,7 +227,9 @@ def check_C09(tier, seed):
     exe = build_driver("asan")
     for c in cfgs(tier, ["api_quick.cfg", "api_nopre_quick.cfg", "simple_quick.cfg"], ["api_thorough.cfg"]):
         res = tlc_api(v, c)
-        apicheck.replay(v, exe, res, aspects={"tree", "freed", "balance"}, seed=seed, tag="C09")
+        # (annotations are part of what is compared: the comment getter is one of the getters)
+        apicheck.replay(v, exe, res, aspects={"tree", "freed", "balance"}, seed=seed, tag="C09",
+                        pol={"mod": "nonsec", "reset": False, "cmt": True})
         if c == "api_nopre_quick.cfg":
             # the cfg_opt_* entry points must behave like their by-name forms (no pre-set validation callback there)
             res.behaviours = [b for b in res.behaviours if b["calls"][-1]["call"]["name"] not in ("vi", "vs", "vf")
@@ -294,7 +301,7 @@ def check_C03(tier, seed):
     v = Verdict("C03", tier, seed)
     exe = build_driver("asan")
     run_lex(v, exe, cfgs(tier, ["lex_dq_quick.cfg", "lex_dqesc_quick.cfg", "lex_octal_quick.cfg", "lex_octal6_quick.cfg", "lex_lines_quick.cfg", "lex_sq_quick.cfg", "lex_comment4_quick.cfg",
-                                "lex_dqenv_quick.cfg", "lex_env_quick.cfg", "lex_slash_quick.cfg"],
+                                "lex_dqenv_quick.cfg", "lex_env_quick.cfg", "lex_envafter_quick.cfg", "lex_slash_quick.cfg", "lex_slashbs_quick.cfg"],
                          ["lex_dq_thorough.cfg", "lex_sq_thorough.cfg", "lex_comment_quick.cfg"]), seed, "C03")
     # strings on the growth steps of the scanner's scratch buffer (lengths the bounded model cannot hold literally)
     from . import stress
